@@ -10,6 +10,39 @@ use crate::{ensure, viol};
 use futures_lite::future::block_on;
 use mqtt_proto::{v3, v5, Error, Protocol};
 
+
+/// The refusal needs no more than the fixed header, the protocol name and the level: a buffer / stream that ends
+/// anywhere from that point on (the rest of the CONNECT has not arrived yet) is refused in the same way, with the
+/// same number of bytes consumed; a buffer that ends before it is incomplete.
+fn partial_refusal<F: fam::Family>(enc: &[u8], gate: usize, want: &F::Error, what: &str, ctx: &mut Ctx) -> CaseResult {
+    let len = enc.len();
+    let mut cuts = vec![gate, gate + 1, gate + 2, (gate + len) / 2, len.saturating_sub(2), len.saturating_sub(1)];
+    cuts.retain(|k| *k >= gate && *k < len);
+    cuts.sort_unstable();
+    cuts.dedup();
+    for &k in &cuts {
+        let b = F::decode(&enc[..k]);
+        ensure!(
+            matches!(&b, Err(e) if e == want),
+            "{}: blocking decoder given the first {} of {} bytes (protocol name and level end at byte {}) returned {:?} instead of Err({:?})",
+            what,
+            k,
+            len,
+            gate,
+            b.map(|o| o.map(|q| fam::render(&q))),
+            want
+        );
+        let (a, used) = fam::dec_async::<F>(&enc[..k]);
+        ensure!(matches!(&a, Err(e) if e == want) && used == gate, "{}: async decoder on a stream ending after {} of {} bytes returned {:?} after consuming {} bytes (expected Err({:?}) after {})", what, k, len, a.map(|q| fam::render(&q)), used, want, gate);
+    }
+    for k in [gate - 1, gate - 2, 1, 0] {
+        let b = F::decode(&enc[..k]);
+        ensure!(matches!(&b, Ok(None)), "{}: blocking decoder given only the first {} bytes (name and level end at {}) returned {:?} instead of Ok(None)", what, k, gate, b.map(|o| o.map(|q| fam::render(&q))));
+    }
+    ctx.label("partly-buffered-connect-refused");
+    Ok(())
+}
+
 /// a v3 CONNECT presented to the v5 decoders
 fn v3_into_v5(input: &Input, ctx: &mut Ctx) -> CaseResult {
     let mut t = Tape::new(input.tape());
@@ -34,6 +67,8 @@ fn v3_connect_into_v5(c: v3::Connect, ctx: &mut Ctx) -> CaseResult {
     ensure!(used == gate, "v5 async decoder consumed {} bytes before refusing a {} CONNECT; protocol name and level end at byte {}", used, proto, gate);
     let pr = fam::dec_poll::<V5>(&enc);
     ensure!(pr.result.as_ref().err() == Some(&want), "v5 poll decoder on a {} CONNECT returned {:?} instead of Err({:?})", proto, pr.result.map(|q| fam::render(&q.pkt)), want);
+
+    partial_refusal::<V5>(&enc, gate, &want, &format!("{} CONNECT into the v5 family", proto), ctx)?;
 
     // continue on the remaining bytes with the matching family's known-protocol entry point
     let mut rest: &[u8] = &enc[gate..];
@@ -111,6 +146,8 @@ fn v5_connect_into_v3(c: v5::Connect, ctx: &mut Ctx) -> CaseResult {
     ensure!(used == gate, "v3 async decoder consumed {} bytes before refusing a v5.0 CONNECT; protocol name and level end at byte {}", used, gate);
     let pr = fam::dec_poll::<V3>(&enc);
     ensure!(pr.result.as_ref().err() == Some(&want), "v3 poll decoder on a v5.0 CONNECT returned {:?} instead of Err({:?})", pr.result.map(|q| fam::render(&q.pkt)), want);
+
+    partial_refusal::<V3>(&enc, gate, &want, "v5.0 CONNECT into the v3 family", ctx)?;
 
     let header = v5::Header::decode(&enc).map_err(|e| Violation::new(format!("v5 Header::decode failed on a v5 CONNECT: {:?}", e)))?;
     let mut rest: &[u8] = &enc[gate..];
@@ -245,6 +282,19 @@ fn grid(input: &Input, ctx: &mut Ctx) -> CaseResult {
             ]
         };
         let own = |p: Protocol| if fam5 { p == Protocol::V500 } else { p != Protocol::V500 };
+        // a pair that is refused is refused as soon as name and level are there, whatever follows has arrived or not
+        if !matches!(legal, Some(p) if own(p)) {
+            let gate = 2 + 2 + name.len() + 1;
+            let full = outcomes[0].1.clone();
+            for k in [gate, gate + 1, frame.len() - 1] {
+                if k < gate || k >= frame.len() || frame.len() > 127 + 2 {
+                    continue;
+                }
+                let part = &frame[..k];
+                let got = if fam5 { v5::Packet::decode(part).map(|o| format!("{:?}", o.is_some())).map_err(|e| format!("{:?}", e)) } else { v3::Packet::decode(part).map(|o| format!("{:?}", o.is_some())).map_err(|e| format!("{:?}", e)) };
+                ensure!(got == full && got.is_err(), "{} blocking decoder given the first {} of {} bytes of a CONNECT with the pair ({}, {}) returned {:?}; on the whole frame it returns {:?}", if fam5 { "v5" } else { "v3" }, k, frame.len(), hex_short(name, 8), level, got, full);
+            }
+        }
         for (front, got) in outcomes {
             let famname = if fam5 { "v5" } else { "v3" };
             match (legal, utf8) {
@@ -316,6 +366,8 @@ pub fn run(env: &mut Env) -> RunResult {
     env.require("c13.v3-into-v5", "v3.1->v5");
     env.require("c13.v3-into-v5", "v3.1.1->v5");
     env.require("c13.v5-into-v3", "v5->v3");
+    env.require("c13.v5-into-v3", "partly-buffered-connect-refused");
+    env.require("c13.v3-into-v5", "partly-buffered-connect-refused");
     env.require("c13.grid", "grid:legal-pair");
     env.require("c13.grid", "grid:invalid-pair");
     env.require("c13.grid", "grid:non-utf8-name");
